@@ -39,13 +39,55 @@ def build_fa(spec):
         fa = cls(states={State(s) for s in spec["states"]}, input_symbols={Symbol(a) for a in spec["symbols"]})
     else:
         fa = cls(states={State(s) for s in spec["states"]}, input_symbols={Symbol(a) for a in spec["symbols"]})
-    for s, a, t in spec["trans"]:
-        fa.add_transition(State(s), Epsilon() if a is None else Symbol(a), State(t))
+    def lab(a):
+        return Epsilon() if a is None else Symbol(a)
+    hist = spec.get("history")
+    if not hist:
+        for s, a, t in spec["trans"]:
+            fa.add_transition(State(s), lab(a), State(t))
+        for s in spec["starts"]:
+            fa.add_start_state(State(s))
+        for s in spec["finals"]:
+            fa.add_final_state(State(s))
+        return fa
+    # incremental construction through the public API with queries in between: the final automaton is
+    # the same object a user gets by building, querying, editing and querying again
+    k = hist["split"]
+    for s, a, t in spec["trans"][:k]:
+        fa.add_transition(State(s), lab(a), State(t))
     for s in spec["starts"]:
         fa.add_start_state(State(s))
     for s in spec["finals"]:
         fa.add_final_state(State(s))
+    for s, a, t in hist.get("extra", []):
+        fa.add_transition(State(s), lab(a), State(t))
+    _poke(fa, spec)
+    for s, a, t in hist.get("extra", []):
+        if [s, a, t] not in spec["trans"][:k]:
+            fa.remove_transition(State(s), lab(a), State(t))
+    for s, a, t in spec["trans"][k:]:
+        fa.add_transition(State(s), lab(a), State(t))
+    if hist.get("poke_twice"):
+        _poke(fa, spec)
     return fa
+
+
+def _poke(fa, spec):
+    """A few public queries whose answers are discarded (they may fill caches)."""
+    try:
+        fa.accepts([])
+        for a in spec["symbols"][:2]:
+            fa.accepts([a])
+            fa.accepts([a, a])
+        if hasattr(fa, "eclose"):
+            for st in spec["states"]:
+                fa.eclose(st)
+        fa.is_deterministic()
+        fa.is_empty()
+        fa.to_deterministic()
+        fa.get_number_transitions()
+    except Exception:   # the discarded queries must not decide anything
+        pass
 
 
 def _val(x):
@@ -103,7 +145,7 @@ PLAIN_SYMS = ["a", "b", "c"]
 ADV_STATES = ["a;b", "a; b", "TRASH", "TrashNode", "Empty", 1, "1", "starting_0", 0, "0;1", "b", "c", "b;c", 2, "2"]
 
 
-def rand_fa(rng, kind=None, profile=None, names="plain", max_states=5, max_syms=3):
+def rand_fa(rng, kind=None, profile=None, names="plain", max_states=5, max_syms=3, history_p=0.0):
     kind = kind or rng.choice(["enfa", "enfa", "nfa", "dfa"])
     profile = profile or rng.choice(["sparse", "dense", "eps", "epscycle", "dead", "unreach", "multi"])
     n = rng.randint(1, max_states)
@@ -155,6 +197,16 @@ def rand_fa(rng, kind=None, profile=None, names="plain", max_states=5, max_syms=
         trans = {(s, a, t) for (s, a, t) in trans if t != u}
         starts = [s for s in starts if s != u]
     extra_sym = [PLAIN_SYMS[k]] if (k < len(PLAIN_SYMS) and rng.random() < 0.15) else []
+    tl = sorted([list(t) for t in trans], key=vkey)
+    history = None
+    if history_p and rng.random() < history_p and tl:
+        rng.shuffle(tl)
+        cand = [s_, a_, t_] = [rng.choice(states), rng.choice(syms + ([None] if kind == "enfa" else [])), rng.choice(states)]
+        extra = [cand] if (kind != "dfa" and cand not in tl) else []
+        history = {"split": rng.randint(0, len(tl)), "extra": extra, "poke_twice": rng.random() < 0.3}
+    if history:
+        return {"kind": kind, "states": states, "symbols": syms + extra_sym, "trans": tl,
+                "starts": starts, "finals": finals, "profile": profile, "names": names, "history": history}
     return {"kind": kind, "states": states, "symbols": syms + extra_sym,
             "trans": sorted([list(t) for t in trans], key=vkey),
             "starts": starts, "finals": finals, "profile": profile, "names": names}
@@ -211,3 +263,20 @@ def finite_language(spec):
             if k(s) in clos([k(t)], sub):
                 return False
     return True
+
+
+def rand_big_dfa(rng, nmin=5, nmax=8, k=None):
+    """Mostly complete DFAs with 5-8 states over 2-3 symbols (where partition refinement has work to do)."""
+    n = rng.randint(nmin, nmax)
+    k = k or rng.choice([2, 2, 3])
+    states = list(range(n)) if rng.random() < 0.5 else PLAIN_STATES[:7][:n] + ["w"] * 0
+    states = states[:n] if len(states) >= n else list(range(n))
+    syms = PLAIN_SYMS[:k]
+    trans = []
+    for s in states:
+        for a in syms:
+            if rng.random() < 0.92:
+                trans.append([s, a, rng.choice(states)])
+    nf = rng.randint(1, max(1, n // 2))
+    return {"kind": "dfa", "states": states, "symbols": syms, "trans": trans, "starts": [states[0]],
+            "finals": rng.sample(states, nf), "profile": "bigdfa", "names": "int" if isinstance(states[0], int) else "plain"}
